@@ -109,3 +109,33 @@ void h_crc_refute(void)
 	__CPROVER_assert(c == r, "C17 bounded: crc of <=6 bytes equals REF fold");
 	VG_CANARY("crc_refute end");
 }
+
+/* C07 burst lemmas over the bitwise definition REF (identified with the code by crc16.step / crc16.tbl_eq_ref):
+   (i) the step is injective in the state for every byte, so two runs that differ in state keep differing while
+       they are fed equal bytes;
+   (ii) flipping a non-empty set of bits confined to 16 consecutive bit positions (such a burst lies within 3
+       consecutive bytes) changes the state after those 3 bytes, for every state before them.
+   Together with crc16.buf (the routine is the fold of the step): every burst of 1..16 flipped bits in a
+   buffer changes its CRC-16.  Both lemmas are loop-free after unwinding the 8-round step: complete. */
+void h_crc_injective(void)
+{
+	uint16_t c1 = nondet_ushort(), c2 = nondet_ushort();
+	uint8_t b = nondet_uchar();
+	__CPROVER_assume(c1 != c2);
+	__CPROVER_assert(REF(c1, b) != REF(c2, b), "C07 burst lemma (i): the CRC step is injective in the state");
+	VG_CANARY("crc_injective");
+}
+void h_crc_burst(void)
+{
+	uint16_t c = nondet_ushort(), m = nondet_ushort();
+	uint8_t b0 = nondet_uchar(), b1 = nondet_uchar(), b2 = nondet_uchar();
+	unsigned sh = nondet_uint();
+	uint32_t e;
+	uint16_t good, bad;
+	__CPROVER_assume(m != 0 && sh <= 8);
+	e = (uint32_t) m << sh;                              /* non-empty error pattern inside a 16-bit window of the 24 bits */
+	good = REF(REF(REF(c, b0), b1), b2);
+	bad  = REF(REF(REF(c, b0 ^ (uint8_t) (e & 0xff)), b1 ^ (uint8_t) ((e >> 8) & 0xff)), b2 ^ (uint8_t) ((e >> 16) & 0xff));
+	__CPROVER_assert(good != bad, "C07 burst lemma (ii): a burst of 1..16 flipped bits changes the state after the bytes it touches");
+	VG_CANARY("crc_burst");
+}
